@@ -715,7 +715,7 @@ def match(norm, actual, path=""):
         if len(norm) != len(actual):
             return "%s: keys %r vs %r" % (path or "value", sorted(map(repr, norm)), sorted(map(repr, actual)))
         for k, v in norm.items():
-            hit = [kk for kk in actual if type(kk) is type(k) and kk == k]
+            hit = [kk for kk in actual if (type(kk) is type(k) or (isinstance(kk, str) and isinstance(k, str))) and kk == k]
             if not hit:
                 return "%s: key %r missing (has %r)" % (path or "value", k, list(actual)[:6])
             d = match(v, actual[hit[0]], "%s[%r]" % (path, k) if path else repr(k))
